@@ -264,6 +264,9 @@ pub fn keygen_codes(alg: Alg, codes: &[(u32, u32)], seed: &[u8]) -> Out<KeyPair>
 pub enum Cb {
     Accept,
     Refuse,
+    /// fails on its first invocation within a call and would accept a second one (a storage layer
+    /// with a transient fault; the library must not invoke the callback a second time)
+    FailOnce,
 }
 
 #[derive(Clone, Copy, Debug, PartialEq, Eq, Hash)]
@@ -298,6 +301,7 @@ pub fn sign_bytes(alg: Alg, blob: &[u8], msg: &[u8], script: Cb, aux: Option<&mu
                 match script {
                     Cb::Accept => Ok(()),
                     Cb::Refuse => Err(()),
+                    Cb::FailOnce => if cbref.len() == 1 { Err(()) } else { Ok(()) },
                 }
             };
             let r = match aux {
@@ -504,6 +508,7 @@ pub fn sign_mut(alg: Alg, blob: &[u8], msg: &mut Vec<u8>, script: Cb) -> (SignRe
                 match script {
                     Cb::Accept => Ok(()),
                     Cb::Refuse => Err(()),
+                    Cb::FailOnce => if cbref.len() == 1 { Err(()) } else { Ok(()) },
                 }
             };
             hbs_lms::sign_mut::<H>(msg.as_mut_slice(), blob, &mut cb, None).map(|s| {
